@@ -792,6 +792,20 @@ fn parse_alone(d: &dyn Dialect, s: &str) -> G<Result<DataType, String>> {
     })
 }
 
+/// the same with `ParserOptions::trailing_commas` switched on: the option must not change how a
+/// printed type (which contains no trailing comma) is read
+fn parse_alone_tc(d: &dyn Dialect, s: &str) -> G<Result<DataType, String>> {
+    guard(|| {
+        let mut p = Parser::new(d).with_options(sqlparser::parser::ParserOptions::new().with_trailing_commas(true)).try_with_sql(s).map_err(|e| e.to_string())?;
+        let t = p.parse_data_type().map_err(|e| e.to_string())?;
+        let next = p.peek_token().token;
+        if next != Token::EOF {
+            return Err(format!("trailing token {next}"));
+        }
+        Ok(t)
+    })
+}
+
 fn parse_column(d: &dyn Dialect, s: &str) -> G<Result<DataType, String>> {
     // a second column follows: the type must also end correctly in front of a comma
     let sql = format!("CREATE TABLE x (c {s}, d INT)");
@@ -913,7 +927,7 @@ pub fn oracle(_c: &Corpus, seed: u64, tier: &str) -> Vec<Report> {
     r.dist.insert("pairs.generated-reproducible".into(), added);
     let mut distinct = BTreeSet::new();
     type Ctx = (&'static str, fn(&dyn Dialect, &str) -> G<Result<DataType, String>>);
-    let ctxs: [Ctx; 3] = [("alone", parse_alone), ("column", parse_column), ("cast", parse_cast)];
+    let ctxs: [Ctx; 4] = [("alone", parse_alone), ("column", parse_column), ("cast", parse_cast), ("alone-trailing-commas-on", parse_alone_tc)];
     // shortest prints first, so that the first example of every signature is a small one
     let mut ordered: Vec<(&DataType, &BTreeSet<usize>)> = values.iter().collect();
     ordered.sort_by_key(|(t, _)| guard(|| t.to_string()).val_or("").len());
